@@ -63,17 +63,12 @@ def converter_obligations() -> list:
     for k, v in want.items():
         obs.append(Obligation(f'wn._db:converters:{k.split(":")[1]}', PROP, 'static', decided=regs.get(k) == v,
                               detail=f'{k} -> {regs.get(k)} (expected {v})', functions=('wn._db',)))
-    fn = wn._db.connect
-    ctree = ast.parse(textwrap.dedent(inspect.getsource(fn)))
-    ok = False
-    for n in ast.walk(ctree):
-        if isinstance(n, ast.Call) and ast.unparse(n.func) == 'sqlite3.connect':
-            for kw in n.keywords:
-                if kw.arg == 'detect_types' and 'PARSE_DECLTYPES' in ast.unparse(kw.value):
-                    ok = True
-    obs.append(Obligation('wn._db.connect:converters:detect-types', PROP, 'static', decided=ok,
-                          detail='sqlite3.connect(..., detect_types=PARSE_DECLTYPES)', functions=('wn._db.connect',),
-                          source=source_span(fn)))
+    # connect() asks for PARSE_DECLTYPES on every path (symbolic execution of connect(), shared with C05)
+    from contracts import C05 as _c05
+    for ob in _c05.pragma_obligations():
+        if ob.name == 'wn._db.connect:converters:detect-types':
+            ob.prop = PROP
+            obs.append(ob)
     # the converters themselves: json round trip / bool(int(.)) - executed on the real functions (A-JSON)
     import json
     samples = [{}, {'note': 'x'}, {'source': 'a "quoted" <&> \t\n \U0001F600', 'confidenceScore': '0.5'}]
